@@ -810,3 +810,13 @@ theorem type_synonyms_quiet (syn : List (List String)) (ext : List (Option Strin
   simp [G.compareType, hm, ha]
 
 end C07
+
+namespace C07
+open Model.Diff Spec.Diff
+
+/-- string values are compared exactly: a change of letter case only is a changed default -/
+example : changedDefault (some (.str ['P', 'e', 'n', 'd'])) (some (.str ['p', 'e', 'n', 'd'])) :=
+  changed_str _ _ (by decide) (by decide) (by decide)
+example : defaultValue (some (.expr ['\'', 'O', 'k', '\''])) ≠ defaultValue (some (.expr ['\'', 'o', 'k', '\''])) := by decide
+
+end C07
